@@ -8,6 +8,7 @@ import (
 	"go/token"
 	"go/types"
 	"math/big"
+	"sort"
 	"strings"
 )
 
@@ -562,6 +563,11 @@ func (fr *frame) callFunc(st *State, call *ast.CallExpr, fn *types.Func, recv *V
 	if vs, ok := fr.builtinModel(st, call, fn, recv, args); ok {
 		return vs
 	}
+	if r := sig.Recv(); r != nil && recv != nil && recv.K == VIface {
+		if _, isIface := r.Type().Underlying().(*types.Interface); isIface {
+			return fr.dispatchIface(st, call, fn, recv, args)
+		}
+	}
 	// inline same-module callee
 	if decl := fc.reg.funcDecls[fn.FullName()]; decl != nil && decl.Body != nil {
 		return fr.inlineCall(st, call, fn, decl, recv, args)
@@ -1011,4 +1017,85 @@ func (fr *frame) builtinModel(st *State, call *ast.CallExpr, fn *types.Func, rec
 		return fr.opaqueResults(st, sig, "io"), true
 	}
 	return nil, false
+}
+
+// dispatchIface: closed-world dispatch of an interface method call over the implementations that
+// have contracts in the loaded module packages. The obligation `dispatch.closed` demands that the
+// dynamic type is one of them; each case then uses that implementation's contract.
+func (fr *frame) dispatchIface(st *State, call *ast.CallExpr, fn *types.Func, recv *Value, args []*Value) []*Value {
+	fc := fr.fc
+	iface := fn.Type().(*types.Signature).Recv().Type().Underlying().(*types.Interface)
+	type impl struct {
+		t  types.Type
+		m  *types.Func
+		c  *FuncContract
+	}
+	var impls []impl
+	var paths []string
+	for p := range fc.reg.pkgs {
+		if strings.HasPrefix(p, modulePath) {
+			paths = append(paths, p)
+		}
+	}
+	sort.Strings(paths)
+	for _, p := range paths {
+		pk := fc.reg.pkgs[p]
+		if pk.Types == nil {
+			continue
+		}
+		sc := pk.Types.Scope()
+		for _, n := range sc.Names() {
+			tn, ok := sc.Lookup(n).(*types.TypeName)
+			if !ok || tn.IsAlias() {
+				continue
+			}
+			if _, isIface := tn.Type().Underlying().(*types.Interface); isIface {
+				continue
+			}
+			for _, cand := range []types.Type{types.NewPointer(tn.Type()), tn.Type()} {
+				if !types.Implements(cand, iface) {
+					continue
+				}
+				obj, _, _ := types.LookupFieldOrMethod(cand, false, pk.Types, fn.Name())
+				m, ok := obj.(*types.Func)
+				if !ok {
+					continue
+				}
+				if c := fc.reg.contractFor(m); c != nil {
+					impls = append(impls, impl{cand, m, c})
+				}
+				break
+			}
+		}
+	}
+	if len(impls) == 0 {
+		panic(unsupported("interface call " + fn.FullName() + ": no interface contract and no implementation with a contract"))
+	}
+	var conds []*Term
+	for _, im := range impls {
+		conds = append(conds, Eq(recv.Typ, typeTag(im.t)))
+	}
+	fc.oblige(st, fr, "safe", fmt.Sprintf("dispatch.closed@%s#%d", fn.Name(), fr.callOrd[call]), Or(conds...))
+	var outs []*State
+	var results [][]*Value
+	for i, im := range impls {
+		sub := st.clone()
+		sub.assume(conds[i])
+		if sub.dead {
+			continue
+		}
+		rv := scalar(recv.S, im.t)
+		res := fr.applyContract(sub, call, im.m, im.c, rv, args)
+		sub.results = res
+		outs = append(outs, sub)
+		results = append(results, res)
+	}
+	merged := mergeMany(st, outs)
+	if merged == nil {
+		panic(unsupported("cannot merge interface dispatch cases"))
+	}
+	res := merged.results
+	merged.results = nil
+	*st = *merged
+	return res
 }
